@@ -151,7 +151,8 @@ def run(ctx):
         r = TermBuilder(hf, prog).return_term()
         nb = ("field", selfp, "n_buckets")
         okh = r[0] == "op" and ((r[1] == "BitAnd" and mk("Sub", nb, const(1)) in r[2]) or (r[1] == "Rem" and r[2][1] == nb))
-        agg = [bi for bi, blk in enumerate(ctor.blocks) for st_ in blk.stmts if st_.k == "assign" and st_.rv.k == "aggregate" and st_.rv.j.get("adt") == CF]
+        from .common import construction_blocks
+        agg = construction_blocks(ctx, ctor, CF)
         pot = False
         if agg:
             fs = atomic_facts(ctor, prog, agg[0])
@@ -235,10 +236,12 @@ def kick_loop(ctx, ii):
     selfp = ("param", 1, "self")
     tb = TermBuilder(ii, prog)
     heads = ii.loop_heads()
-    if len(heads) != 1:
-        ctx.shape("R01-cuckoo-home", ii.key, ii, "insert_internal has %d loops, expected the kick loop" % len(heads))
+    # the kick loop is the loop that overwrites table slots
+    kheads = [hh for hh in heads if any(t.callee_name() == "set" and bi in ii.natural_loop(hh) for bi, t in ii.calls())]
+    if len(kheads) != 1:
+        ctx.shape("R01-cuckoo-home", ii.key, ii, "insert_internal has %d loops that overwrite slots, expected the one kick loop" % len(kheads))
         return
-    h = heads[0]
+    h = kheads[0]
     body = ii.natural_loop(h)
     bsz = ("field", selfp, "bucketsize")
     tbl = ("field", selfp, "table")
@@ -299,5 +302,23 @@ def kick_loop(ctx, ii):
     # before the loop: the two direct placements use (i1, f) and (i2, f)
     pre = [(bi, t) for bi, t in ii.calls() if t.callee_name() == "write_to_bucket" and bi not in body]
     args = [A(bi, t)[1:] for bi, t in pre]
-    ctx.check(sorted(map(repr, args)) == sorted(map(repr, [[("param", 3, "i1"), ("param", 2, "f")], [("param", 4, "i2"), ("param", 2, "f")]])), "R01-cuckoo-home", ii.key + ":direct", ii,
+    i1p, i2p, fp_ = ("param", 3, "i1"), ("param", 4, "i2"), ("param", 2, "f")
+    ok_direct = sorted(map(repr, args)) == sorted(map(repr, [[i1p, fp_], [i2p, fp_]]))
+    if not ok_direct and len(pre) == 1 and args[0] == [("elem", ("array", (i1p, i2p))), fp_]:
+        # `for &candidate in &[i1, i2] { if self.write_to_bucket(candidate, f) { .. return Ok(true) } }`: both buckets are tried
+        # provided the only way from this loop on to the kick loop is the exhaustion of the two candidates
+        from ..guards import reach_without
+        ch = [hh for hh in heads if pre[0][0] in ii.natural_loop(hh) and hh != h]
+        if len(ch) == 1:
+            cbody = ii.natural_loop(ch[0])
+            ok_direct = True
+            for b in cbody:
+                for sx in ii.succs(b):
+                    if sx in cbody or not reach_without(ii, sx, h, -1):
+                        continue
+                    blk = ii.blocks[b]
+                    arms = {int(v): tg for v, tg in blk.term.j["arms"]} if blk.term.k == "switch" else {}
+                    if not (arms.get(0) == sx and blk.stmts and blk.stmts[-1].k == "assign" and blk.stmts[-1].rv.k == "discr"):
+                        ok_direct = False
+    ctx.check(ok_direct, "R01-cuckoo-home", ii.key + ":direct", ii,
               "direct placements try (i1, f) then (i2, f)", "direct placements use %s" % [[fmt(y) for y in a] for a in args])
